@@ -757,7 +757,10 @@ impl Searcher {
         let mut decode_buffer = self.decode_buffer.borrow_mut();
         let decoder = self
             .decode_builder
-            .build_with_buffer(read_from, &mut *decode_buffer)
+            .build_with_buffer(
+                RetryInterrupted(read_from),
+                &mut *decode_buffer,
+            )
             .map_err(S::Error::error_io)?;
 
         if self.multi_line_with_matcher(&matcher) {
@@ -949,7 +952,7 @@ impl Searcher {
         let mut decode_buffer = self.decode_buffer.borrow_mut();
         let mut read_from = self
             .decode_builder
-            .build_with_buffer(file, &mut *decode_buffer)
+            .build_with_buffer(RetryInterrupted(file), &mut *decode_buffer)
             .map_err(S::Error::error_io)?;
 
         // If we don't have a heap limit, then we can defer to std's
@@ -1026,6 +1029,26 @@ impl Searcher {
                 let limit = buf.len() + additional;
                 let doubled = 2 * buf.len();
                 buf.resize(cmp::min(doubled, limit), 0);
+            }
+        }
+    }
+}
+
+/// A reader that retries reads interrupted by a signal.
+///
+/// The transcoder treats every error of its source as final: when a read is
+/// interrupted right after it has seen the end of its input, it reports EOF on
+/// the next call without flushing its decoder, which silently drops a pending
+/// replacement character (for example for a trailing incomplete UTF-16 code
+/// unit). Retrying at the source keeps `Interrupted` away from it.
+struct RetryInterrupted<R>(R);
+
+impl<R: io::Read> io::Read for RetryInterrupted<R> {
+    fn read(&mut self, buf: &mut [u8]) -> io::Result<usize> {
+        loop {
+            match self.0.read(buf) {
+                Err(ref err) if err.kind() == io::ErrorKind::Interrupted => {}
+                result => return result,
             }
         }
     }
